@@ -698,7 +698,8 @@ def tree_cases(rng: random.Random, tree: Dict[str, Any], prefix: str, per_case: 
         if with_ann:
             if not any(o[0] == "astart" for o in ops):
                 ops.insert(rng.randrange(0, len(ops) + 1), ["astart"])
-            ops.append(["advance", rng.choice([0, 29999, 30000, 30001, 250000, rng.randrange(0, 900000)])])
+            ops.append(["advance", rng.choice([0, 29999, 30000, 30001, 250000, rng.randrange(0, 900000),
+                                               rng.choice([250000, 1850000])])])  # sometimes longer than the stated max-age
             if rng.random() < 0.75:
                 ops.append(["astop"])
         recipes.append({"tree": tree, "ops": ops, "tail": rng.choice([0, 0, 31000, 65000]),
@@ -809,6 +810,8 @@ CORPUS += [
                             ["advance", 50], ["search", {"st": "upnp:rootdevice", "mx": "3", "sel": 0, "req": 0}],
                             ["advance", 10000], ["search", {"st": "upnp:rootdevice", "mx": "1", "sel": "max", "req": 0}],
                             ["search", {"st": "ssdp:all", "req": 0}]]},
+    # audit C13-2: observed for longer than the max-age the server states (1800 s): it must have advertised
+    {"tree": _ROOT, "ops": [["astart"], ["advance", 1850000], ["astop"]]},
     # audit C13-2: the whole SSDP side started and stopped through UpnpServer._async_start_ssdp / _async_stop_ssdp
     {"tree": _ROOT, "via_server": True, "ops": [["search", {"st": "ssdp:all", "mx": "2", "sel": 3}], ["advance", 100000], ["astop"]],
      "tail": 61000},
